@@ -1584,6 +1584,12 @@ impl<'p, 'w, W: Write> DesignatorWriter<'p, 'w, W> {
         if self.written_non_zero_unit {
             if self.printer.comma_after_designator {
                 self.wtr.write_str(",")?;
+                // The friendly format requires whitespace after a comma
+                // (the parser rejects `1yr,2mos`). So when spacing is
+                // otherwise disabled, a space is written here regardless.
+                if matches!(self.printer.spacing, Spacing::None) {
+                    self.wtr.write_str(" ")?;
+                }
             }
             self.wtr.write_str(self.printer.spacing.between_units())?;
         }
